@@ -1,5 +1,5 @@
 #!/usr/bin/env python3
-import sys, os, argparse, importlib, traceback
+import sys, os, argparse, importlib, traceback, json
 sys.path.insert(0, '/verif/tools')
 import vlib
 
@@ -17,7 +17,18 @@ def main():
         sys.exit(mod.replay(ctx, a.replay))
     try:
         rc = mod.run(ctx)
-    except Exception:
+    except Exception as e:
+        tb = traceback.extract_tb(e.__traceback__)
+        if tb and os.path.realpath(tb[-1].filename).startswith(os.path.realpath(vlib.REPO) + os.sep):
+            # the exception was raised INSIDE the implementation, on an input the check generated, and is of a kind the check does not expect from
+            # it (the expected ones are handled where they can occur): on the unchanged tree no check sees this, so the property is no longer shown
+            where = '%s:%d in %s' % (os.path.relpath(tb[-1].filename, vlib.REPO), tb[-1].lineno, tb[-1].name)
+            stack = ['%s:%d %s' % (f.filename, f.lineno, f.name) for f in tb[-8:]]
+            ctx.violation('the implementation raised %s: %s at %s while the check was running case %s' % (
+                type(e).__name__, str(e)[:200], where, json.dumps(getattr(ctx, 'last_case', None), default=str)[:300]),
+                dict(kind='implementation-exception', exception=type(e).__name__, message=str(e)[:500], where=where, stack=stack,
+                     last_case=getattr(ctx, 'last_case', None)), found_input=True)
+            sys.exit(ctx.finish(level='proof', checker_cmd='(aborted by an exception of the implementation)'))
         # a crash of the machinery is not a verdict about the code: report loudly, exit 2
         traceback.print_exc()
         print('CHECK-ERROR property=%s (machinery failure, not a verdict)' % a.prop)
